@@ -53,6 +53,17 @@ def eta_total(chain):
     return e
 
 
+def attach_midload(m):
+    """Give the first intermediate gear (not the last element) an external torque of its own (null, so the hand-set motor
+    load stays the one the rule reads).  The documented overall efficiency is the product over ALL matings wherever the
+    loads are applied (seed C15-10: the product stopped at the first load-carrying gear)."""
+    for i in range(1, len(m.elements) - 1):
+        if hasattr(m.elements[i], 'external_torque'):
+            m.elements[i].external_torque = lambda time, angular_position, angular_speed: Torque(0.0, 'Nm')
+            return i
+    return None
+
+
 def nudge(x, k):
     for _ in range(abs(k)):
         x = math.nextafter(x, math.inf if k > 0 else -math.inf)
@@ -113,15 +124,19 @@ def check_reach(acc, ci):
     # the target may be handed over as an Angle (a sub-kind of AngularPosition, e.g. the result of angle arithmetic)
     combos = [(t, b, l, j, 'AngularPosition') for t, b, l, j in itertools.product(targets, brakes, loads, range(n))]
     combos += [(t, b, l, j, 'Angle') for t, b, l, j in itertools.product(targets[:3], brakes, loads, range(n))]
-    for tgt, br, lf, j, tcls in combos:
+    combos = [c + (False,) for c in combos] + [c + (True,) for c in combos if c[2] == 0.2 and c[4] == 'AngularPosition']
+    for tgt, br, lf, j, tcls, mid in combos:
         T = si.si(tgt[0], 'AngularPosition', tgt[1])
         B = si.si(br[0], 'Angle', br[1])
         err = 0.0 if lf is None else lf / eta * B
         ths = T - B + err
         for th, applicable in [(ths - 1e-6 * B - 1e-9, False), (ths + 1e-6 * B + 1e-9, True), (ths + 0.5 * B, True),
                                (ths + B, True), (ths + 3 * B, True), (ths - 5 * B, False)]:
-            case = {'kind': 'reach', 'chain': ci, 'target': tgt, 'brake': br, 'load_frac': lf, 'enc': j, 'theta': th, 'target_class': tcls}
+            case = {'kind': 'reach', 'chain': ci, 'target': tgt, 'brake': br, 'load_frac': lf, 'enc': j, 'theta': th, 'target_class': tcls,
+                    'midload': mid}
             m = sim.Model(spec)
+            if mid and attach_midload(m) is None:
+                continue
             # encoder target j must sit at theta `th`: set last element accordingly
             rh.set_state(m, chain, 0.0, th / chain.up[j], 0.0,
                          motor_load=None if lf is None else lf * chain.Tmax)
@@ -137,7 +152,8 @@ def check_reach(acc, ci):
             acc.outcomes[('reach', applicable)] += 1
             exp = 1 - (th - ths) / B if applicable else None
             has_unlisted = any(spec['elements'][i]['k'] in ('Wg', 'F') and chain.etas[i] != 1.0 for i in range(1, n))
-            tag = ('eta-of-worm-slave' if (has_unlisted and lf not in (None, 0.0)) else 'plain') + ('/target-given-as-Angle' if tcls == 'Angle' else '')
+            tag = ('eta-of-worm-slave' if (has_unlisted and lf not in (None, 0.0)) else 'plain') + ('/target-given-as-Angle' if tcls == 'Angle' else '') + \
+                ('/load-on-intermediate-gear' if mid else '')
             if (got is None) != (exp is None):
                 acc.violation(f'C15/ReachAngularPosition/window/{tag}', 'applicable once theta >= theta_s = target - theta_b + static error', case,
                               {'got': got, 'expected': exp, 'theta_s': ths})
@@ -169,10 +185,14 @@ def check_prop_variant(acc, ci, i0_zero, pmin):
         cand = 1 / eta * lf * (chain.imax - chain.i0) / chain.imax + chain.i0 / chain.imax
         dmin_doc = g * cand if cand != 0 else pmin
         proposals = {}
+        # (for one load an intermediate gear carries an external torque of its own as well)
+        mid = (lf == 0.3 and g == 2)
         for th in (0.0, -0.5 * T, 0.3 * T, T - 1e-6 * T, T + 1e-6 * T, 2 * T):
             case = {'kind': 'prop', 'chain': ci, 'target': tgt, 'g': g, 'load_frac': lf, 'enc': j, 'theta': th,
-                    'i0_zero': i0_zero, 'pwm_min': pmin}
+                    'i0_zero': i0_zero, 'pwm_min': pmin, 'midload': mid}
             m = sim.Model(spec)
+            if mid:
+                attach_midload(m)
             rh.set_state(m, chain, 0.0, th / chain.up[j], 0.0, motor_load=lf * chain.Tmax)
             kw = {} if pmin is None else {'pwm_min': pmin}
             rule = StartProportionalToAngularPosition(encoder=AbsoluteRotaryEncoder(m.elements[j]), powertrain=m.pt,
@@ -195,6 +215,8 @@ def check_prop_variant(acc, ci, i0_zero, pmin):
             acc.nstates += 1
             acc.outcomes[('prop', th <= T)] += 1
             tag = 'eta-of-worm-slave' if (any(spec['elements'][i]['k'] == 'Wg' and chain.etas[i] != 1.0 for i in range(1, n)) and lf) else 'plain'
+            if mid:
+                tag += '/load-on-intermediate-gear'
             if th > T:
                 if got is not None:
                     acc.violation('C15/StartProportional/window', 'None beyond the target', case, {'got': got})
